@@ -13,10 +13,10 @@ import (
 )
 
 type SolveResult struct {
-	Status  string  `json:"result"` // unsat | sat | unknown | timeout | error
-	Backend string  `json:"backend"`
-	TimeS   float64 `json:"time_s"`
-	Output  string  `json:"output,omitempty"` // solver output after the first line (model values)
+	Status  string            `json:"result"` // unsat | sat | unknown | timeout | error
+	Backend string            `json:"backend"`
+	TimeS   float64           `json:"time_s"`
+	Output  string            `json:"output,omitempty"` // solver output after the first line (model values)
 	All     map[string]string `json:"all_backends,omitempty"`
 }
 
